@@ -893,7 +893,11 @@ func (fr *Frame) binop(op token.Token, a, b Term, ta, tb, tr types.Type, va, vb 
 	switch op {
 	case token.EQL, token.NEQ:
 		var e Term
+		_, isArr := ta.Underlying().(*types.Array)
 		switch {
+		case isArr:
+			// (the zero value of an array type is a constant without a value, like nil)
+			e = fr.arrayEq(a, b, ta.Underlying().(*types.Array))
 		case va != nil && isNilConst(va):
 			e = fr.isNil(b, tb)
 		case vb != nil && isNilConst(vb):
@@ -1616,4 +1620,21 @@ func (fr *Frame) panicNoChange(pos token.Pos) {
 	if len(cs) > 0 {
 		fr.oblige("panic.nochange", "", and(cs...), pos, "nothing was written before the declared panic")
 	}
+}
+
+// arrayEq: Go compares arrays element by element over their length; an SMT array is total, so
+// equality of the array terms would also compare indices outside [0, len).
+func (fr *Frame) arrayEq(a, b Term, at *types.Array) Term {
+	if !strings.HasPrefix(a.Sort, "(Array Int ") {
+		return eq(a, b)
+	}
+	es := arrayElemSort(a.Sort)
+	if at.Len() <= 64 {
+		var cs []Term
+		for i := int64(0); i < at.Len(); i++ {
+			cs = append(cs, eq(sel(a, tInt(i), es), sel(b, tInt(i), es)))
+		}
+		return and(cs...)
+	}
+	return Term{fmt.Sprintf("(forall ((i Int)) (=> (and (<= 0 i) (< i %d)) (= (select %s i) (select %s i))))", at.Len(), a.S, b.S), SBool}
 }
